@@ -670,6 +670,7 @@ def _interp_internal_from_weight(arr, axis, left, right, lhs_idx, rhs_idx, frac,
     vleft = arr[lhs_idx]
     vright = arr[rhs_idx]
     newval = vleft + _frac*(vright - vleft)
+    newval = np.where(_frac == 0, vleft, newval) # exact at a node, whatever the next node holds (inf, NaN), as numpy.interp
 
     # fill values (None: the value at the edge, as numpy.interp does)
     newval[left_idx] = arr[0] if left is None else left
